@@ -641,8 +641,6 @@ class _Run:
         return f"expunge {k}"
 
     def op_expire(self, idx, refresh):
-        from sqlalchemy import inspect
-
         m = self.m
         if m.dirty:
             return None
@@ -797,7 +795,6 @@ def check(case, ctx):
     pinned = bool(case.get("pinned"))
     casc = run.cascades
     interesting_cfg = any("delete-orphan" in c or "save-update" not in c for c in casc.values())
-    done = False
     try:
         try:
             for ei, ep in enumerate(case["epochs"]):
@@ -830,7 +827,6 @@ def check(case, ctx):
                 run.op_flush(f"epoch {ei}", pinned)
                 if run.stop:
                     break
-            done = True
         finally:
             for c in casc.values():
                 for o in ("delete-orphan", "delete", "expunge", "refresh-expire"):
